@@ -60,6 +60,63 @@ REFACTORINGS = [
     ("refactor9 (ctf patterns / Laue classes at module level)", [("apply", R9)], ["ctf.vendors", "ctf.laue_ids"]),
     ("refactor8 + refactor9", [("apply", R8), ("apply", R9)], ["ang.columns", "ctf.vendors", "ctf.laue_ids"]),
 ]
+# further behaviour-preserving rewrites (hand-made) that defeat the AST source of other items
+OWN = [
+    ("own: ang footprint table moved to module level, local removed",
+     [("edit", ANG, '    vendor_footprint = {\n        "emsoft": "EMsoft",\n        "astar": "ACOM",\n'
+                    '        "orix": "Column names: phi1, Phi, phi2",\n    }\n', ''),
+      ("edit", ANG, "in vendor_footprint.items():", "in _FOOTPRINTS.items():"),
+      ("edit", ANG, "\n\ndef file_reader(", '\n\n_FOOTPRINTS = dict(emsoft="EMsoft", astar="ACOM", '
+                    'orix="Column names: " + ", ".join(["phi1", "Phi", "phi2"]))\n\n\ndef file_reader(')],
+     ["ang.footprint"]),
+    ("own: ang column table local renamed and deep-copied",
+     [("edit", ANG, '    column_names = {\n        "tsl"', '    tables = {\n        "tsl"'),
+      ("edit", ANG, "column_names[vendor]", "tables[vendor]", 5),
+      ("edit", ANG, "    n_variants = len(", "    tables = {k: dict(v) for k, v in tables.items()}\n    n_variants = len(")],
+     ["ang.columns"]),
+    ("own: ang writer sentinels from a table, not-indexed rule spelled differently",
+     [("edit", ANG, '    prop_arrays[~indexed_points, 0::2] = 0  # IQ, detector signal\n'
+                    '    prop_arrays[~indexed_points, 1] = -1  # CI\n'
+                    '    prop_arrays[~indexed_points, 3] = 180  # Pattern fit\n'
+                    '    prop_arrays[~indexed_points, 4:] = 0\n',
+       '    for cols, value in ((slice(0, None, 2), 0), (1, -1), (3, 180), (slice(4, None), 0)):\n'
+       '        prop_arrays[~indexed_points, cols] = value\n'),
+      ("edit", ANG, '    if vendor in ["orix", "tsl"]:\n        not_indexed = data_dict["prop"]["ci"] == -1\n',
+       '    if vendor == "tsl" or vendor == "orix":\n'
+       '        not_indexed = np.isclose(data_dict["prop"]["ci"], -1.0, rtol=0, atol=0)\n'),
+      ("edit", ANG, "    eulers[~indexed_points] = 4 * np.pi\n",
+       "    np.place(eulers, np.repeat(~indexed_points, 3), 4 * np.pi)\n"),
+      ("edit", ANG, '    if vendor == "astar":\n        scan_unit = "nm"\n    else:\n        scan_unit = "um"\n',
+       '    scan_unit = {"astar": "nm"}.get(vendor, "um")\n')],
+     ["ang.prop_sentinels", "ang.not_indexed", "ang.euler_sentinel", "ang.units"]),
+    ("own: ctf column list built from a tuple, phase-0 rule / unit / degrees spelled differently",
+     [("edit", CTF, "    column_names = [\n", "    column_names = list((\n"),
+      ("edit", CTF, '        "BS",  # Band slope\n    ]\n', '        "BS",  # Band slope\n    ))\n'),
+      ("edit", CTF, '    not_indexed = data_dict["phase_id"] == 0\n',
+       '    not_indexed = np.logical_not(data_dict["phase_id"].astype(bool))\n'),
+      ("edit", CTF, '    data_dict["scan_unit"] = "um"\n', '    data_dict.update(scan_unit="um")\n'),
+      ("edit", CTF, '    if vendor == "astar":\n        data_dict = _fix_astar_coords(header, data_dict)\n',
+       '    fix = {"astar": _fix_astar_coords}.get(vendor)\n    if fix is not None:\n        data_dict = fix(header, data_dict)\n')],
+     ["ctf.columns", "ctf.not_indexed", "ctf.unit", "ctf.astar_vendor"]),
+    ("own: bruker properties from a key list, unit in __init__-free property",
+     [("re", BRK, r"        self\.properties = dict\(\n(?:            \w+=self\.data_dict\[\"[^\"]+\"\],\n)+        \)\n",
+       '        spaced = ("BEAM", "SAMPLE")\n'
+       '        keys = ["PCX", "PCY", "DD", "MAD", "MADPhase", "NIndexedBands", "RadonBandCount", "RadonQuality",\n'
+       '                "XBEAM", "YBEAM", "XSAMPLE", "YSAMPLE", "ZSAMPLE"]\n'
+       '        self.properties = {\n'
+       '            k: self.data_dict[k[0] + " " + k[1:] if k[1:] in spaced else k] for k in keys\n'
+       '        }\n'),
+      ("edit", BRK, '        euler = np.column_stack([dd["phi1"], dd["PHI"], dd["phi2"]])\n        euler = np.deg2rad(euler)\n',
+       '        euler = np.stack([dd[k] for k in ("phi1", "PHI", "phi2")], axis=1) * (np.pi / 180)\n')],
+     ["bruker.props", "bruker.eulers"]),
+    ("own: emsoft expected properties as class-level tuple",
+     [("re", EMS, r"        expected_properties = \[\n((?:            \"\w+\",\n)+)        \]\n", ""),
+      ("edit", EMS, "for property_name in expected_properties:", "for property_name in self.expected_properties:"),
+      ("edit", EMS, "    read_refined = False\n", '    read_refined = False\n    expected_properties = (\n        "AvDotProductMap",\n'
+       '        "CI",\n        "IQ",\n        "ISM",\n        "KAM",\n        "OSM",\n        "RefinedDotProducts",\n'
+       '        "TopDotProductList",\n        "TopMatchIndices",\n    )\n')],
+     ["emsoft.props"]),
+]
 REAL = [
     ("seeded C15-1: not-indexed rule dropped for vendor 'orix'", [("apply", os.path.join(VERIF, "seeded/C15-1/patch.diff"))]),
     ("ang: column renamed (emsoft dp -> dotp)", [("edit", ANG, '"dp",  # Dot product', '"dotp",  # Dot product')]),
@@ -90,10 +147,16 @@ REAL = [
 
 
 def do(steps):
+    import re
     reset()
     for st in steps:
         if st[0] == "apply":
             git("apply", st[1], cwd=WT)
+        elif st[0] == "re":
+            p = os.path.join(WT, st[1])
+            s, n = re.subn(st[2], st[3].replace("\\", "\\\\"), open(p).read())
+            assert n == 1, f"{st[1]}: pattern {st[2]!r} matched {n} times"
+            open(p, "w").write(s)
         else:
             edit(*st[1:])
 
@@ -123,7 +186,7 @@ def main():
         wt = run(WT)
         check(wt["text"] == base["text"], "   scratch worktree at HEAD gives the same text as /repo")
         # ---- 2 ----
-        for name, steps, items in REFACTORINGS:
+        for name, steps, items in REFACTORINGS + ([] if "--no-own" in sys.argv else OWN):
             if any(s[0] == "apply" and not os.path.exists(s[1]) for s in steps):
                 check(False, f"2. {name}", "diff not found")
                 continue
@@ -133,6 +196,9 @@ def main():
             via = "; ".join(f"{k}: {got['status'].get(k, '')[:40]}" for k in items)
             check(got["text"] == base["text"], f"2. {name}: text identical", via)
             check(old["text"] != base["text"], "   (the AST source alone does not survive it)")
+            import py_compile
+            for rel in (ANG, CTF, BRK, EMS):
+                py_compile.compile(os.path.join(WT, rel), doraise=True)
         # ---- 3 ----
         for name, steps in REAL:
             if any(s[0] == "apply" and not os.path.exists(s[1]) for s in steps):
